@@ -39,12 +39,10 @@ import (
 	"fmt"
 	"go/types"
 	"io"
-	"reflect"
 	"strings"
 	"unsafe"
 
 	"golang.org/x/tools/go/ssa"
-	"golang.org/x/tools/go/types/typeutil"
 )
 
 type value any
@@ -74,51 +72,6 @@ type closure struct {
 
 type bad struct{}
 
-type rtype struct {
-	t types.Type
-}
-
-// Hash functions and equivalence relation:
-
-// hashString computes the FNV hash of s.
-func hashString(s string) int {
-	var h uint32
-	for i := 0; i < len(s); i++ {
-		h ^= uint32(s[i])
-		h *= 16777619
-	}
-	return int(h)
-}
-
-var hasher = typeutil.MakeHasher()
-
-// hashType returns a hash for t such that
-// types.Identical(x, y) => hashType(x) == hashType(y).
-func hashType(t types.Type) int {
-	return int(hasher.Hash(t))
-}
-
-// usesBuiltinMap returns true if the built-in hash function and
-// equivalence relation for type t are consistent with those of the
-// interpreter's representation of type t.  Such types are: all basic
-// types (bool, numbers, string), pointers and channels.
-//
-// usesBuiltinMap returns false for types that require a custom map
-// implementation: interfaces, arrays and structs.
-//
-// Panic ensues if t is an invalid map key type: function, map or slice.
-func usesBuiltinMap(t types.Type) bool {
-	switch t := t.(type) {
-	case *types.Basic, *types.Chan, *types.Pointer:
-		return true
-	case *types.Named, *types.Alias:
-		return usesBuiltinMap(t.Underlying())
-	case *types.Interface, *types.Array, *types.Struct:
-		return false
-	}
-	panic(fmt.Sprintf("invalid map key type: %T", t))
-}
-
 func (x array) eq(t types.Type, _y any) bool {
 	y := _y.(array)
 	tElt := t.Underlying().(*types.Array).Elem()
@@ -130,37 +83,19 @@ func (x array) eq(t types.Type, _y any) bool {
 	return true
 }
 
-func (x array) hash(t types.Type) int {
-	h := 0
-	tElt := t.Underlying().(*types.Array).Elem()
-	for _, xi := range x {
-		h += hash(t, tElt, xi)
-	}
-	return h
-}
-
 func (x structure) eq(t types.Type, _y any) bool {
 	y := _y.(structure)
 	tStruct := t.Underlying().(*types.Struct)
 	for i, n := 0, tStruct.NumFields(); i < n; i++ {
-		if f := tStruct.Field(i); !f.Anonymous() {
+		// (upstream skipped embedded fields here: a bug; only blank
+		// fields are ignored by Go's ==)
+		if f := tStruct.Field(i); f.Name() != "_" {
 			if !equals(f.Type(), x[i], y[i]) {
 				return false
 			}
 		}
 	}
 	return true
-}
-
-func (x structure) hash(t types.Type) int {
-	tStruct := t.Underlying().(*types.Struct)
-	h := 0
-	for i, n := 0, tStruct.NumFields(); i < n; i++ {
-		if f := tStruct.Field(i); !f.Anonymous() {
-			h += hash(t, f.Type(), x[i])
-		}
-	}
-	return h
 }
 
 // nil-tolerant variant of types.Identical.
@@ -176,23 +111,17 @@ func (x iface) eq(t types.Type, _y any) bool {
 	return sameType(x.t, y.t) && (x.t == nil || equals(x.t, x.v, y.v))
 }
 
-func (x iface) hash(outer types.Type) int {
-	return hashType(x.t)*8581 + hash(outer, x.t, x.v)
-}
-
-func (x rtype) hash(_ types.Type) int {
-	return hashType(x.t)
-}
-
-func (x rtype) eq(_ types.Type, y any) bool {
-	return types.Identical(x.t, y.(rtype).t)
-}
-
 // equals returns true iff x and y are equal according to Go's
 // linguistic equivalence relation for type t.
 // In a well-typed program, the dynamic types of x and y are
 // guaranteed equal.
 func equals(t types.Type, x, y value) bool {
+	if sx, ok := x.(sym); ok {
+		return sx.w.decide(sx.w.tt.eq(sx.t, sx.w.termOf(y)))
+	}
+	if sy, ok := y.(sym); ok {
+		return sy.w.decide(sy.w.tt.eq(sy.w.termOf(x), sy.t))
+	}
 	switch x := x.(type) {
 	case bool:
 		return x == y.(bool)
@@ -230,79 +159,35 @@ func equals(t types.Type, x, y value) bool {
 		return x == y.(string)
 	case *value:
 		return x == y.(*value)
-	case chan value:
-		return x == y.(chan value)
+	case *chanObj:
+		return x == y.(*chanObj)
 	case structure:
 		return x.eq(t, y)
 	case array:
 		return x.eq(t, y)
 	case iface:
 		return x.eq(t, y)
-	case rtype:
-		return x.eq(t, y)
+	case unsafe.Pointer:
+		return x == y.(unsafe.Pointer)
 	}
 
 	// Since map, func and slice don't support comparison, this
 	// case is only reachable if one of x or y is literally nil
 	// (handled in eqnil) or via interface{} values.
-	panic(fmt.Sprintf("comparing uncomparable type %s", t))
+	panic(targetPanic{iface{t: types.Typ[types.String], v: fmt.Sprintf("runtime error: comparing uncomparable type %s", t)}})
 }
 
-// Returns an integer hash of x such that equals(x, y) => hash(x) == hash(y).
-// The outer type is used only for the "unhashable" panic message.
-func hash(outer, t types.Type, x value) int {
+// concreteEquals is equals for values known to contain no symbolic parts.
+func concreteEquals(t types.Type, x, y value) bool {
 	switch x := x.(type) {
-	case bool:
-		if x {
-			return 1
-		}
-		return 0
-	case int:
-		return x
-	case int8:
-		return int(x)
-	case int16:
-		return int(x)
-	case int32:
-		return int(x)
-	case int64:
-		return int(x)
-	case uint:
-		return int(x)
-	case uint8:
-		return int(x)
-	case uint16:
-		return int(x)
-	case uint32:
-		return int(x)
-	case uint64:
-		return int(x)
-	case uintptr:
-		return int(x)
-	case float32:
-		return int(x)
-	case float64:
-		return int(x)
-	case complex64:
-		return int(real(x))
-	case complex128:
-		return int(real(x))
 	case string:
-		return hashString(x)
+		ys, ok := y.(string)
+		return ok && x == ys
 	case *value:
-		return int(uintptr(unsafe.Pointer(x)))
-	case chan value:
-		return int(uintptr(reflect.ValueOf(x).Pointer()))
-	case structure:
-		return x.hash(t)
-	case array:
-		return x.hash(t)
-	case iface:
-		return x.hash(t)
-	case rtype:
-		return x.hash(t)
+		yp, ok := y.(*value)
+		return ok && x == yp
 	}
-	panic(fmt.Sprintf("unhashable type %v", outer))
+	return equals(t, x, y)
 }
 
 // reflect.Value struct values don't have a fixed shape, since the
@@ -362,35 +247,28 @@ func writeValue(buf *bytes.Buffer, v value) {
 	case nil, bool, int, int8, int16, int32, int64, uint, uint8, uint16, uint32, uint64, uintptr, float32, float64, complex64, complex128, string:
 		fmt.Fprintf(buf, "%v", v)
 
-	case map[value]value:
+	case *omap:
 		buf.WriteString("map[")
-		sep := ""
-		for k, e := range v {
-			buf.WriteString(sep)
-			sep = " "
-			writeValue(buf, k)
-			buf.WriteString(":")
-			writeValue(buf, e)
-		}
-		buf.WriteString("]")
-
-	case *hashmap:
-		buf.WriteString("map[")
-		sep := " "
-		for _, e := range v.entries() {
-			for e != nil {
+		if v != nil {
+			sep := ""
+			for _, e := range v.ents {
+				if e.dead {
+					continue
+				}
 				buf.WriteString(sep)
 				sep = " "
 				writeValue(buf, e.key)
 				buf.WriteString(":")
-				writeValue(buf, e.value)
-				e = e.next
+				writeValue(buf, e.val)
 			}
 		}
 		buf.WriteString("]")
 
-	case chan value:
-		fmt.Fprintf(buf, "%v", v) // (an address)
+	case *chanObj:
+		fmt.Fprintf(buf, "%p", v)
+
+	case sym:
+		buf.WriteString("<sym " + truncate(v.t.String(), 80) + ">")
 
 	case *value:
 		if v == nil {
@@ -437,9 +315,6 @@ func writeValue(buf *bytes.Buffer, v value) {
 	case *ssa.Function, *ssa.Builtin, *closure:
 		fmt.Fprintf(buf, "%p", v) // (an address)
 
-	case rtype:
-		buf.WriteString(v.t.String())
-
 	case tuple:
 		// Unreachable in well-formed Go programs
 		buf.WriteString("(")
@@ -484,37 +359,3 @@ func (it *stringIter) next() tuple {
 	return okv
 }
 
-type mapIter struct {
-	iter *reflect.MapIter
-	ok   bool
-}
-
-func (it *mapIter) next() tuple {
-	it.ok = it.iter.Next()
-	if !it.ok {
-		return []value{false, nil, nil}
-	}
-	k, v := it.iter.Key().Interface(), it.iter.Value().Interface()
-	return []value{true, k, v}
-}
-
-type hashmapIter struct {
-	iter *reflect.MapIter
-	ok   bool
-	cur  *entry
-}
-
-func (it *hashmapIter) next() tuple {
-	for {
-		if it.cur != nil {
-			k, v := it.cur.key, it.cur.value
-			it.cur = it.cur.next
-			return []value{true, k, v}
-		}
-		it.ok = it.iter.Next()
-		if !it.ok {
-			return []value{false, nil, nil}
-		}
-		it.cur = it.iter.Value().Interface().(*entry)
-	}
-}
